@@ -1,1 +1,2 @@
 import Tbfmm.Properties.C20
+import Tbfmm.Properties.C20b
